@@ -37,24 +37,53 @@ NS_HELPERS = ('_iparam_namespace_from_namespace',
               '_iparam_namespace_from_objectname')
 
 
-def adapter_keys(func):
-    """(required, optional, problems) key names read from `params`."""
+def adapter_keys(func, pname='params', depth=0):
+    """(required, optional, problems) key names read from the request
+    parameter dictionary: literal keys, keys taken from a loop over a
+    literal tuple of names, and what private helpers read that are handed
+    the dictionary"""
+    from .c02 import _loop_constants
+    from ..paths import _helper_of
     req, opt, odd = {}, {}, []
+
+    def keys_of(knode):
+        k = const_str(knode)
+        if k is not None:
+            return [k]
+        if isinstance(knode, ast.Name):
+            vals = _loop_constants(func, knode.id)
+            if vals and all(isinstance(v, str) for v in vals):
+                return list(vals)
+        return None
     for n in walk_no_nested(func.node):
         if isinstance(n, ast.Subscript) and isinstance(n.value, ast.Name) \
-                and n.value.id == 'params':
-            k = const_str(n.slice)
-            if k is None:
+                and n.value.id == pname:
+            ks = keys_of(n.slice)
+            if ks is None:
                 odd.append(n)
             else:
-                req[k] = n
-        elif isinstance(n, ast.Call) and dotted(n.func) == 'params.get' \
+                for k in ks:
+                    req[k] = n
+        elif isinstance(n, ast.Call) and dotted(n.func) == pname + '.get' \
                 and n.args:
-            k = const_str(n.args[0])
-            if k is None:
+            ks = keys_of(n.args[0])
+            if ks is None:
                 odd.append(n)
             else:
-                opt[k] = n
+                for k in ks:
+                    opt[k] = n
+        elif isinstance(n, ast.Call) and depth < 2 and any(
+                isinstance(a, ast.Name) and a.id == pname for a in n.args):
+            h = _helper_of(func, n)
+            if h is not None:
+                hp = [p for p in h.params if p not in ('self', 'cls')]
+                for i, a in enumerate(n.args):
+                    if isinstance(a, ast.Name) and a.id == pname and \
+                            i < len(hp):
+                        r2_, o2_, d2_ = adapter_keys(h, hp[i], depth + 1)
+                        req.update(r2_)
+                        opt.update(o2_)
+                        odd += d2_
     return req, opt, odd
 
 
